@@ -112,6 +112,7 @@ impl StarkProof {
         let layer_log_sizes = self.layer_log_sizes(&self.public_input.dynamic_params)?;
 
         let fri_step_list = fri.fri_step_list;
+        anyhow::ensure!(!fri_step_list.is_empty(), "Empty fri_step_list");
         let log_last_layer_degree_bound = log2_if_power_of_2(fri.last_layer_degree_bound)
             .ok_or(anyhow::anyhow!("Invalid last layer degree bound"))?;
         let fri = FriConfig {
@@ -120,14 +121,18 @@ impl StarkProof {
             inner_layers: fri_step_list[1..]
                 .iter()
                 .zip(layer_log_sizes[2..].iter())
-                .map(|(layer_steps, layer_log_rows)| TableCommitmentConfig {
-                    n_columns: 2_u32.pow(*layer_steps),
-                    vector: VectorCommitmentConfig {
-                        height: *layer_log_rows,
-                        n_verifier_friendly_commitment_layers,
-                    },
+                .map(|(layer_steps, layer_log_rows)| -> anyhow::Result<TableCommitmentConfig> {
+                    Ok(TableCommitmentConfig {
+                        n_columns: 2_u32
+                            .checked_pow(*layer_steps)
+                            .ok_or(anyhow::anyhow!("Invalid fri step"))?,
+                        vector: VectorCommitmentConfig {
+                            height: *layer_log_rows,
+                            n_verifier_friendly_commitment_layers,
+                        },
+                    })
                 })
-                .collect(),
+                .collect::<anyhow::Result<Vec<_>>>()?,
             fri_step_sizes: fri_step_list,
             log_last_layer_degree_bound,
         };
@@ -149,8 +154,12 @@ impl StarkProof {
     ) -> anyhow::Result<u32> {
         let consts = self.public_input.layout.get_dynamics_or_consts(dynamic_params);
         let effective_component_height = Self::COMPONENT_HEIGHT * consts.cpu_component_step;
-        log2_if_power_of_2(effective_component_height * self.public_input.n_steps)
-            .ok_or(anyhow::anyhow!("Invalid cpu component step"))
+        log2_if_power_of_2(
+            effective_component_height
+                .checked_mul(self.public_input.n_steps)
+                .ok_or(anyhow::anyhow!("Invalid number of steps"))?,
+        )
+        .ok_or(anyhow::anyhow!("Invalid cpu component step"))
     }
     fn log_eval_damain_size(
         &self,
@@ -164,7 +173,12 @@ impl StarkProof {
     ) -> anyhow::Result<Vec<u32>> {
         let mut layer_log_sizes = vec![self.log_eval_damain_size(dynamic_params)?];
         for layer_step in &self.proof_parameters.stark.fri.fri_step_list {
-            layer_log_sizes.push(layer_log_sizes.last().unwrap() - layer_step);
+            layer_log_sizes.push(
+                layer_log_sizes
+                    .last()
+                    .and_then(|s| s.checked_sub(*layer_step))
+                    .ok_or(anyhow::anyhow!("Invalid fri step list"))?,
+            );
         }
         Ok(layer_log_sizes)
     }
